@@ -94,7 +94,7 @@ fn bits_of_type(t: &Type) -> u64 {
 }
 
 pub fn run(ctx: &mut Ctx) {
-    let total = ctx.q(20000, 300000);
+    let total = ctx.q(100000, 1000000);
     ctx.cases("reconstruct", total, |ctx, idx| {
         let depth = (idx % 4) as u32;
         let t = rand_nested_type(&mut ctx.rng, depth);
@@ -231,7 +231,7 @@ pub fn run(ctx: &mut Ctx) {
 
     // distribution of the pair (slot i, slot i+1) a single party holds, over generator seeds
     let mut hist: BTreeMap<String, Vec<u64>> = BTreeMap::new();
-    let draws = ctx.q(60000u64, 1000000);
+    let draws = ctx.q(300000u64, 3000000);
     let block = 500u64;
     let secrets_bit = [0u128, 1];
     let secrets_u8 = [0u128, 1, 255, 0x5a];
